@@ -75,7 +75,22 @@ func genAbci(r *lib.Rand, tier string) History {
 		nblocks = 64 + r.Intn(30)
 	}
 	nh, nf, ns := 0, 0, 0
+	planned := map[int][]Step{} // pause / start pairs inside the idle gap of a repeated context (frequency = timeout + 3..9)
 	for b := 0; b < nblocks; b++ {
+		h.Steps = append(h.Steps, planned[b]...)
+		if b == 3 || (b > 3 && b < 30 && r.Chance(1, 8)) {
+			n := int64(1 + r.Intn(3))
+			f := n + 3 + int64(r.Intn(7))
+			h.Steps = append(h.Steps, Step{Op: "scall", A: 0, N: n, F: true, M: f, C: -1, D: 1 + r.Intn(3)})
+			idx := ns
+			ns++
+			for k := 0; k < 3; k++ {
+				p := b + 2 + r.Intn(int(2*f))
+				q := p + 1 + r.Intn(int(f))
+				planned[p] = append(planned[p], Step{Op: "spause", B: idx})
+				planned[q] = append(planned[q], Step{Op: "sstart", B: idx})
+			}
+		}
 		nops := r.Intn(4)
 		if b < 10 {
 			nops = 1 + r.Intn(4)
